@@ -58,6 +58,7 @@ func c13EpName(i int) string { return []string{"x", "y", "z", "w"}[i] }
 var c13Templates1 = []string{
 	"T",
 	"T\nreturn ok <: string",
+	"T\nreturn ok <: Resp",
 	"return ok <: string\nT",
 	"T\nT",
 	"if c:\n    T",
@@ -70,7 +71,7 @@ var c13Templates1 = []string{
 var c13Templates2 = []string{
 	"T\nU",
 	"if c:\n    T\nelse:\n    U",
-	"one of:\n    c1:\n        T\n        return ok <: string\n    c2:\n        U",
+	"one of:\n    c1:\n        T\n        return ok <: string\n    c2:\n        U\n    c3:\n        T",
 }
 var c13Templates0 = []string{"...", "step"}
 
@@ -82,7 +83,7 @@ func c13Bodies(dist []string, reduced bool) []string {
 	t1 := c13Templates1
 	t2 := c13Templates2
 	if reduced {
-		t1 = []string{c13Templates1[0], c13Templates1[1], c13Templates1[4], c13Templates1[7]}
+		t1 = []string{c13Templates1[0], c13Templates1[1], c13Templates1[2], c13Templates1[5], c13Templates1[8]}
 		t2 = []string{c13Templates2[0]}
 	}
 	for _, t := range t1 {
